@@ -344,6 +344,81 @@ def _img(words):
 
 
 # ------------------------------------------------------------------------------------------------
+# (a') producer -> consumer chains: whatever an instruction leaves in a register must behave as a 32-bit value
+# in every kind of consumer (a result that is only *numerically* right immediately after the producer is not enough)
+# ------------------------------------------------------------------------------------------------
+def producers(seed):
+    """(instruction, initial registers, initial words): one or more operand settings per register-writing mnemonic,
+    chosen so that results include 0, 1, values with bit 7 / 15 / 31 set and all-ones."""
+    ra, rb = _regs(seed)
+    rd = 14
+    out = []
+    pairs = [(0xC8, 0x64), (0x64, 0xC8), (0xFFFFFFFF, 1), (0x80000000, 0x80000000), (0xFFFFFF38, 0xFFFFFF9C), (5, 5), (0x8000, 0xFFFF)]
+    for op in sorted(rv32.ALU):
+        for a, b in pairs:
+            out.append(((op, rd, ra, rb, 0), {ra: a, rb: b}, {}))
+    for op in sorted(rv32.IALU):
+        for a in (0xC8, 0xFFFFFFFF, 0x80000000, 0):
+            for imm in ((31, 1, 7) if op in rv32.SHIFTS else (-1, 100, -200, 0x7FF)):
+                out.append(((op, rd, ra, 0, imm), {ra: a}, {}))
+    for op in sorted(rv32.LD):
+        for w in (0x80C8FFC8, 0x00000000, 0x7F80FF64, 0xFFFFFFFF):
+            for off in (0, 1, 2):
+                n = rv32.LD[op][0]
+                if (off % 4) + n <= 4:
+                    out.append(((op, rd, rb, 0, off), {rb: BASE + 16}, {BASE + 16: w}))
+    for imm in (0, 1, 0x80000, 0xFFFFF, 0x12345):
+        out.append((("lui", rd, 0, 0, imm), {}, {}))
+        out.append((("auipc", rd, 0, 0, imm), {}, {}))
+    return out
+
+
+def consumers(rd):
+    """Instruction sequences that consume register rd in every role: both ALU operands, shift amount and shifted value,
+    store data of every width, address base, branch operand, multiplication / division operand."""
+    t, u, base = 15, 16, 20
+    return [
+        [("add", t, rd, rd, 0)], [("sub", t, 0, rd, 0)], [("sub", t, rd, u, 0)], [("mul", t, rd, rd, 0)], [("mulhu", t, rd, rd, 0)],
+        [("slli", t, rd, 0, 31), ("slli", t, t, 0, 1)], [("sll", t, u, rd, 0)], [("srl", t, rd, u, 0)], [("sra", t, rd, u, 0)], [("srai", t, rd, 0, 4)],
+        [("sb", 0, base, rd, 0), ("lw", t, base, 0, 0)], [("sh", 0, base, rd, 0), ("lw", t, base, 0, 0)], [("sw", 0, base, rd, 0), ("lw", t, base, 0, 0)],
+        [("xori", t, rd, 0, -1)], [("sltu", t, u, rd, 0)], [("slt", t, rd, u, 0)], [("div", t, rd, u, 0)], [("remu", t, u, rd, 0)],
+        [("beq", 0, rd, u, 8), ("addi", t, 0, 0, 1), ("addi", t, t, 0, 2)], [("bltu", 0, u, rd, 8), ("addi", t, 0, 0, 1), ("addi", t, t, 0, 2)],
+        [("add", t, rd, base, 0), ("andi", t, t, 0, -4), ("lw", t, t, 0, 0)],
+        [("add", t, rd, rd, 0), ("add", t, t, t, 0), ("sub", t, 0, t, 0), ("sh", 0, base, t, 2), ("lw", t, base, 0, 0)],
+    ]
+
+
+def chain_shard(shard):
+    seed, part, parts = shard
+    p = Partial()
+    prods = producers(seed)
+    rd = 14
+    cons = consumers(rd)
+    k = 0
+    for ins, regs, words in prods:
+        for ci, c in enumerate(cons):
+            k += 1
+            if k % parts != part:
+                continue
+            for uval in (3, 0xFFFFFFFF):
+                prog = [ins] + c
+                rg = dict(regs)
+                rg.update({16: uval, 20: BASE + 64})
+                wd = dict(words)
+                wd.update({BASE + 64: 0x5A5A5A5A})
+                exp, bad = check_prog(prog, rg, wd, len(prog) + 2)
+                p.evaluations += 1
+                p.nontrivial += 1
+                p.counters["producer-consumer-chain"] += 1
+                for f, d in bad:
+                    p.violation(dict(oracle="program", field=f, chain=True), prog_case(prog, rg, wd, len(prog) + 2),
+                                f"[{rv.prog_text(prog)}] regs={ {r: hex(v) for r, v in rg.items()} }: {d}", size=(len(prog), k))
+    if part == 0:
+        p.sample(prog_case([prods[3][0]] + cons[10], prods[3][1], prods[3][2], 5))
+    return p
+
+
+# ------------------------------------------------------------------------------------------------
 # (b) programs over the hazard alphabets
 # ------------------------------------------------------------------------------------------------
 def prog_shard(shard):
@@ -379,7 +454,8 @@ def run(ctx):
     seed, thorough = ctx.seed, not ctx.quick
     ctx.rule = ("(a) one instruction executed by one real single-cycle step() from a prepared state, for every mnemonic in scope "
                 "over aliasing patterns x boundary operands x all 4096 12-bit immediates / all shift amounts / address and "
-                "alignment classes; (b) every program up to a length bound over the hazard alphabets H18/H28 from several initial "
+                "alignment classes; (a') every register-writing mnemonic (several operand settings) followed by every one of 22 consumer sequences that use "
+                "the result as ALU operand, shift amount, store data of each width, address, branch operand ...; (b) every program up to a length bound over the hazard alphabets H18/H28 from several initial "
                 "states, compared with the golden model after every step. Non-trivial = the reference run changes a register, "
                 "memory, output or exit code, transfers control, or faults. Cases are distinct by construction.")
     ctx.assumptions += [
@@ -401,6 +477,10 @@ def run(ctx):
                 shards.append((cls, op, seed, thorough, part, parts))
     part = pmap(sweep_shard, shards)
     ctx.space("operand-sweep", part, t0, mnemonics=sum(len(o) for _c, _g, o in CLASSES))
+    t0 = time.time()
+    part = pmap(chain_shard, [(seed, i, 32) for i in range(32)])
+    ctx.space("producer-consumer-chains", part, t0, producers=len(producers(seed)), consumers=len(consumers(14)))
+    ctx.require("producer-consumer-chain")
     # (b)
     steps = 24 if ctx.quick else 40
     nstates = 2 if ctx.quick else 4
